@@ -212,6 +212,11 @@ func runOnce(d Desc, settle time.Duration) mon.Result {
 		if d.Idle {
 			return viol("c06/success-after-loss:"+d.Scenario, "the connection was lost (and the reader had noticed) before the operation started, yet it reported success with %q", r.res)
 		}
+		if sc.IsOpen && d.Kind != "write" && d.K < d.S-2 {
+			// an Open has no result string to compare: it cannot have completed if the connection
+			// was lost before the end of the opening exchange
+			return viol("c06/truncated-success:"+d.Scenario, "Open reported success although the connection was lost after byte %d of the %d-byte opening exchange", d.K, d.S)
+		}
 		if r.res != d.Want {
 			return viol("c06/truncated-success:"+d.Scenario, "operation reported success with a result that differs from the complete one\n got: %q\nwant: %q", r.res, d.Want)
 		}
